@@ -707,6 +707,51 @@ def foreign_records(res, T, t, cls, rng, n):
             break
 
 
+def both_on_then_assign(res, T, t, cls):
+    """A record from another writer in which BOTH members of an exclusive pair are on (nothing forbids such bytes): loading
+    shows what the record says; assigning True to one member - also to the one that is on already - leaves the pair with that
+    member on and its partner off, in memory and in the saved record."""
+    import rv.api as api
+    pairs = [(o, t_) for o in t.options for t_ in [x for x in t.options if x.name in o.exclusive_of]]
+    if not pairs:
+        return
+    raw = api.Synth(cls()).read()
+    chunks = [(c[0], c[1]) for c in iffparse.parse(raw)]
+    cur, pos = None, None
+    for i, (cid, pl) in enumerate(chunks):
+        if cid == b"CHNM":
+            cur = int.from_bytes(pl, "little")
+        elif cid == b"CHDT" and cur == t.options_chnm:
+            pos = i
+    if pos is None:
+        return
+    for a, b in pairs:
+        rec = bytearray(chunks[pos][1].ljust(max(a.byte, b.byte) + 1, b"\0"))
+        for o in (a, b):
+            rec[o.byte] |= (0 if o.inverted else 1) << o.bit
+            if o.inverted:
+                rec[o.byte] &= ~(1 << o.bit) & 0xFF
+        new = list(chunks)
+        new[pos] = (b"CHDT", bytes(rec))
+        case = {"type": T, "family": "both-on-then-assign", "pair": [a.name, b.name]}
+        res.case((T, "both-on", a.name, b.name))
+        res.count("records_with_both_exclusive_members_on")
+        try:
+            mod = api.read_sunvox_file(BytesIO(iffparse.build(new))).module
+        except Exception as e:
+            res.violation(f"C11:foreign-record-raises:{T}:{workload.exc_key(e)}", f"{T} with {a.name} and {b.name} both on in the record: {e!r}", case)
+            continue
+        if not (getattr(mod, a.name) and getattr(mod, b.name)):
+            res.count("observation_both_on_record_normalised_by_the_loader")
+        setattr(mod, a.name, True)
+        if getattr(mod, b.name) or not getattr(mod, a.name):
+            res.violation(f"C11:exclusive-both-on:{T}:after-assignment", f"{T}: loaded with {a.name} and {b.name} both on; after {a.name} = True: {a.name}={getattr(mod, a.name)}, {b.name}={getattr(mod, b.name)}", case)
+            continue
+        back = mod.clone()
+        if getattr(back, b.name) or not getattr(back, a.name):
+            res.violation(f"C11:exclusive-both-on:{T}:saved", f"{T}: after {a.name} = True the saved record still has {b.name} on", case)
+
+
 def random_full(res, T, rng, n):
     from rv.modules import MODULE_CLASSES
     t = spec.load()[T]
@@ -894,6 +939,7 @@ def run_shard(spec_, res):
         linked_modules(res, spec_["type"], spec.load()[spec_["type"]], MODULE_CLASSES[spec.load()[spec_["type"]].mtype], rng, 40 if spec_["tier"] == "quick" else 400)
         subclass_options(res, spec_["type"], spec.load()[spec_["type"]], MODULE_CLASSES[spec.load()[spec_["type"]].mtype], rng, 12 if spec_["tier"] == "quick" else 120)
         foreign_records(res, spec_["type"], spec.load()[spec_["type"]], MODULE_CLASSES[spec.load()[spec_["type"]].mtype], rng, 30 if spec_["tier"] == "quick" else 300)
+        both_on_then_assign(res, spec_["type"], spec.load()[spec_["type"]], MODULE_CLASSES[spec.load()[spec_["type"]].mtype])
     res.count("types_" + spec_["mode"])
 
 
